@@ -73,6 +73,8 @@ type c16Op struct {
 	// socket: the same over a real TCP connection (peer is 127.0.0.1)
 	// allowed: ParseAllowedIps(trusted).Allowed(ip)
 	// defaults: DefaultTrustedProxies / DefaultAllowedIps()
+	// parse:   ParseAllowedIps(trusted): refused, or the list as net.IPNet.Contains reads it
+	// Configurations are handed to the model as the texts they are (the model parses them).
 	K        string   `json:"k"`
 	Trusted  *string  `json:"trusted,omitempty"`
 	Allow    string   `json:"allow,omitempty"`
@@ -120,9 +122,18 @@ func c16IpNum(ip net.IP) (int, *big.Int) {
 	return 6, new(big.Int).SetBytes(ip.To16())
 }
 
+// numbers in hexadecimal: Coq reads a 39-digit decimal number many times slower, and reading
+// the numbers is a large part of the time a cases file takes
+func c16Hex(n *big.Int) string {
+	if n.BitLen() <= 3 {
+		return n.String()
+	}
+	return "0x" + n.Text(16)
+}
+
 func c16CoqIp(ip net.IP) string {
 	fam, n := c16IpNum(ip)
-	return fmt.Sprintf("(V%d %s)", fam, n.String())
+	return fmt.Sprintf("(V%d %s)", fam, c16Hex(n))
 }
 
 // a *net.IPNet as (base, prefix length), following networkNumberAndMask
@@ -133,10 +144,10 @@ func c16CoqNet(n *net.IPNet) string {
 			mask = mask[12:]
 		}
 		ones, _ := mask.Size()
-		return fmt.Sprintf("n4 %s %d", new(big.Int).SetBytes(v4).String(), ones)
+		return fmt.Sprintf("n4 %s %d", c16Hex(new(big.Int).SetBytes(v4)), ones)
 	}
 	ones, _ := mask.Size()
-	return fmt.Sprintf("n6 %s %d", new(big.Int).SetBytes(n.IP.To16()).String(), ones)
+	return fmt.Sprintf("n6 %s %d", c16Hex(new(big.Int).SetBytes(n.IP.To16())), ones)
 }
 
 func c16CoqNets(a *AllowedIps) string {
@@ -152,6 +163,37 @@ func c16CoqNets(a *AllowedIps) string {
 type c16Tables struct {
 	parse map[string]net.IP
 	split map[string]string
+	cidr  map[string]*net.IPNet
+}
+
+// seeConfig records what the library says about the entries of a configuration string:
+// net.ParseCIDR for entries with a "/", net.ParseIP for the others.  (The splitting at
+// commas and the trimming are the model's own.)
+func (tb *c16Tables) seeConfig(cfg string) {
+	for _, e := range strings.Split(cfg, ",") {
+		for _, t := range []string{e, strings.TrimSpace(e)} {
+			if strings.Contains(t, "/") {
+				if _, n, err := net.ParseCIDR(t); err == nil {
+					tb.cidr[t] = n
+				}
+			} else {
+				tb.see(t)
+			}
+		}
+	}
+}
+
+func (tb *c16Tables) coqCidr() string {
+	var ks []string
+	for k := range tb.cidr {
+		ks = append(ks, k)
+	}
+	sort.Strings(ks)
+	var items []string
+	for _, k := range ks {
+		items = append(items, fmt.Sprintf("(%s, %s)", c16CoqStr(k), c16CoqNet(tb.cidr[k])))
+	}
+	return coqList(items)
 }
 
 func (tb *c16Tables) see(s string) {
@@ -206,6 +248,7 @@ type c16Server struct {
 	router  *mux.Router
 	config  *goconf.ConfigFile
 	allow   string
+	trusted string // reload server: the trusted proxies last loaded
 	// socket front: records what net/http handed to the handlers
 	front  *httptest.Server
 	mu     sync.Mutex
@@ -218,10 +261,38 @@ type c16Server struct {
 type c16Env struct {
 	t       *testing.T
 	servers map[string]*c16Server
+	startup map[string]bool // configurations a server is started with
+	reloads int
 }
 
-func (e *c16Env) server(trusted string) *c16Server {
-	if s, ok := e.servers[trusted]; ok {
+// serverFor: a server started with the configuration when it is one of the start-up
+// configurations of the run, otherwise the one server whose trusted proxies are switched with
+// the real Hub.Reload (both paths parse the text with ParseAllowedIps).
+func (e *c16Env) serverFor(trusted string) *c16Server {
+	if e.startup[trusted] {
+		return e.server(trusted)
+	}
+	s := e.serverKey("\x00reload", "")
+	if s.hub.rpcClients == nil {
+		// Hub.Reload also reloads the RPC clients; the test helper creates hubs without (the server never does)
+		s.hub.rpcClients, _ = NewGrpcClientsForTestWithConfig(e.t, goconf.NewConfigFile(), nil)
+	}
+	if s.trusted != trusted {
+		s.config.RemoveOption("app", "trustedproxies")
+		if trusted != "" {
+			s.config.AddOption("app", "trustedproxies", trusted)
+		}
+		s.hub.Reload(s.config)
+		s.trusted = trusted
+		e.reloads++
+	}
+	return s
+}
+
+func (e *c16Env) server(trusted string) *c16Server { return e.serverKey(trusted, trusted) }
+
+func (e *c16Env) serverKey(key, trusted string) *c16Server {
+	if s, ok := e.servers[key]; ok {
 		return s
 	}
 	config := goconf.NewConfigFile()
@@ -240,7 +311,7 @@ func (e *c16Env) server(trusted string) *c16Server {
 		r.ServeHTTP(w, req)
 	}))
 	e.t.Cleanup(s.front.Close)
-	e.servers[trusted] = s
+	e.servers[key] = s
 	return s
 }
 
@@ -303,7 +374,7 @@ func c16FromStrs(l []string) []c16Str {
 
 // c16Run executes the ops on the real code; returns the Coq trace and outputs.
 func c16Run(e *c16Env, c *c16Case, sink *caseSink) (trace []string, outs []string, tb *c16Tables, nontrivial bool) {
-	tb = &c16Tables{parse: map[string]net.IP{}, split: map[string]string{}}
+	tb = &c16Tables{parse: map[string]net.IP{}, split: map[string]string{}, cidr: map[string]*net.IPNet{}}
 	tb.see("")
 	classify := func(o c16Op, trustedNets *AllowedIps, peer string, xr, xff []string, res string) {
 		host := peer
@@ -339,65 +410,67 @@ func c16Run(e *c16Env, c *c16Case, sink *caseSink) (trace []string, outs []strin
 			}
 		}
 	}
+	// a configuration the real ParseAllowedIps refuses: the op becomes "this text is refused"
+	rejected := func(cfg string) bool {
+		if _, err := ParseAllowedIps(cfg); err != nil {
+			sink.count("config_rejected")
+			tb.seeConfig(cfg)
+			trace = append(trace, fmt.Sprintf("(OCfgParse %s, VReject)", c16CoqStr(cfg)))
+			outs = append(outs, "rejected")
+			nontrivial = true
+			return true
+		}
+		return false
+	}
 	for _, o := range c.Ops {
 		sink.count("op_" + o.K)
+		cfg := ""
+		if o.Trusted != nil {
+			cfg = *o.Trusted
+		}
+		tb.seeConfig(cfg)
+		tb.seeConfig(o.Allow)
+		c16CountConfig(sink, cfg)
 		switch o.K {
 		case "realip":
 			var trusted *AllowedIps
 			tcoq := "None"
 			if o.Trusted != nil {
-				var err error
-				trusted, err = ParseAllowedIps(*o.Trusted)
-				if err != nil {
-					sink.count("config_rejected")
+				if rejected(cfg) {
 					continue
 				}
-				tcoq = "(Some " + c16CoqNets(trusted) + ")"
+				trusted, _ = ParseAllowedIps(cfg)
+				tcoq = "(Some " + c16CoqStr(cfg) + ")"
 			}
 			req := &http.Request{RemoteAddr: string(o.Peer), Header: c16Header(o.XR, o.XFF)}
 			res := GetRealUserIP(req, trusted)
 			tb.seeRequest(string(o.Peer), c16Strs(o.XR), c16Strs(o.XFF))
 			tb.see(res)
 			classify(o, trusted, string(o.Peer), c16Strs(o.XR), c16Strs(o.XFF), res)
-			trace = append(trace, fmt.Sprintf("(ORealIP %s %s %s %s, VAddr %s)", tcoq, c16CoqStr(string(o.Peer)),
+			trace = append(trace, fmt.Sprintf("(OCfgRealIP %s %s %s %s, VAddr %s)", tcoq, c16CoqStr(string(o.Peer)),
 				c16CoqStrs(o.XR), c16CoqStrs(o.XFF), c16CoqStr(res)))
 			outs = append(outs, "addr:"+res)
 		case "hub":
-			cfg := ""
-			if o.Trusted != nil {
-				cfg = *o.Trusted
-			}
-			if _, err := ParseAllowedIps(cfg); err != nil {
-				sink.count("config_rejected")
+			if rejected(cfg) {
 				continue
 			}
-			s := e.server(cfg)
+			s := e.serverFor(cfg)
 			trusted := s.hub.trustedProxies.Load()
 			req := &http.Request{RemoteAddr: string(o.Peer), Header: c16Header(o.XR, o.XFF)}
 			res := s.hub.getRealUserIP(req)
 			tb.seeRequest(string(o.Peer), c16Strs(o.XR), c16Strs(o.XFF))
 			tb.see(res)
 			classify(o, trusted, string(o.Peer), c16Strs(o.XR), c16Strs(o.XFF), res)
-			trace = append(trace, fmt.Sprintf("(ORealIP (Some %s) %s %s %s, VAddr %s)", c16CoqNets(trusted), c16CoqStr(string(o.Peer)),
+			trace = append(trace, fmt.Sprintf("(OCfgHub %s %s %s %s, VAddr %s)", c16CoqStr(cfg), c16CoqStr(string(o.Peer)),
 				c16CoqStrs(o.XR), c16CoqStrs(o.XFF), c16CoqStr(res)))
 			outs = append(outs, "addr:"+res)
 		case "stats", "socket":
-			cfg := ""
-			if o.Trusted != nil {
-				cfg = *o.Trusted
-			}
-			if _, err := ParseAllowedIps(cfg); err != nil {
-				sink.count("config_rejected")
+			if rejected(cfg) || rejected(o.Allow) {
 				continue
 			}
-			if _, err := ParseAllowedIps(o.Allow); err != nil {
-				sink.count("config_rejected")
-				continue
-			}
-			s := e.server(cfg)
+			s := e.serverFor(cfg)
 			s.setAllow(o.Allow)
 			trusted := s.hub.trustedProxies.Load()
-			allow := s.backend.statsAllowedIps.Load()
 			ep := o.Endpoint % len(c16Paths)
 			peer, xr, xff := string(o.Peer), c16Strs(o.XR), c16Strs(o.XFF)
 			status := 0
@@ -440,20 +513,19 @@ func c16Run(e *c16Env, c *c16Case, sink *caseSink) (trace []string, outs []strin
 			// the address the gate parses is one of the strings already seen
 			classify(o, trusted, peer, xr, xff, "\x00")
 			sink.count(fmt.Sprintf("status_%s_%d", c16Paths[ep], status))
-			trace = append(trace, fmt.Sprintf("(OStats %d %s %s %s %s %s, VStatus %d)", ep, c16CoqNets(trusted), c16CoqNets(allow),
+			trace = append(trace, fmt.Sprintf("(OCfgStats %d %s %s %s %s %s, VStatus %d)", ep, c16CoqStr(cfg), c16CoqStr(o.Allow),
 				c16CoqStr(peer), c16CoqStrs(c16FromStrs(xr)), c16CoqStrs(c16FromStrs(xff)), status))
 			outs = append(outs, fmt.Sprintf("status:%d", status))
 		case "allowed":
-			cfg := ""
-			if o.Trusted != nil {
-				cfg = *o.Trusted
-			}
-			nets, err := ParseAllowedIps(cfg)
 			ip := net.ParseIP(o.Ip)
-			if err != nil || ip == nil {
-				sink.count("config_rejected")
+			if ip == nil {
+				sink.count("probe_not_an_address")
 				continue
 			}
+			if rejected(cfg) {
+				continue
+			}
+			nets, _ := ParseAllowedIps(cfg)
 			arg := ip
 			if v4 := ip.To4(); v4 != nil && !o.Ip16 {
 				arg = v4
@@ -465,14 +537,45 @@ func c16Run(e *c16Env, c *c16Case, sink *caseSink) (trace []string, outs []strin
 			} else {
 				sink.count("allowed_false")
 			}
-			trace = append(trace, fmt.Sprintf("(OAllowed %s %s, VBool %s)", c16CoqNets(nets), c16CoqIp(ip), coqBool(res)))
+			trace = append(trace, fmt.Sprintf("(OCfgAllowed %s %s, VBool %s)", c16CoqStr(cfg), c16CoqIp(ip), coqBool(res)))
 			outs = append(outs, fmt.Sprintf("allowed:%v", res))
+		case "parse":
+			if rejected(cfg) {
+				continue
+			}
+			nets, _ := ParseAllowedIps(cfg)
+			sink.count("config_parsed")
+			nontrivial = nontrivial || !nets.Empty()
+			trace = append(trace, fmt.Sprintf("(OCfgParse %s, VParsed %s)", c16CoqStr(cfg), c16CoqNets(nets)))
+			outs = append(outs, "parsed:"+nets.String())
 		case "defaults":
 			trace = append(trace, fmt.Sprintf("(ODefaults, VNets %s %s)", c16CoqNets(DefaultTrustedProxies), c16CoqNets(DefaultAllowedIps())))
 			outs = append(outs, "defaults")
 		}
 	}
 	return
+}
+
+// what kinds of entries the configurations of the run contain (evidence)
+func c16CountConfig(sink *caseSink, cfg string) {
+	for _, e := range strings.Split(cfg, ",") {
+		e = strings.TrimSpace(e)
+		if e == "" {
+			continue
+		}
+		switch ip := net.ParseIP(e); {
+		case strings.Contains(e, "/"):
+			sink.count("cfg_entry_subnet")
+		case ip == nil:
+			sink.count("cfg_entry_invalid")
+		case strings.Contains(e, ".") && strings.Contains(e, ":"):
+			sink.count("cfg_entry_bare_v4_mapped")
+		case ip.To4() != nil:
+			sink.count("cfg_entry_bare_v4")
+		default:
+			sink.count("cfg_entry_bare_v6")
+		}
+	}
 }
 
 // c16Socket sends the request over TCP to the recording front of the server.
@@ -524,6 +627,17 @@ var c16TrustedConfigs = []string{
 	"203.0.113.7/32", "::ffff:10.0.0.0/104", "10.1.2.3/8", "2001:db8:1:2:3:4:5:6/64",
 	" 10.0.0.1 ,, 10.0.0.2 ", "0.0.0.0/1", "128.0.0.0/1", "10.0.0.0/31", "fe80::/10", "2001:db8::1",
 	"::ffff:192.168.0.1", "::ffff:0:0/96", "198.51.100.0/25,198.51.100.128/26", "2001:db8::/127",
+	// single addresses of both families next to subnets; IPv4-mapped spellings; zero-length and full-length prefixes
+	"2001:db8:1234::5", "10.0.0.7, 2001:db8:0:1::5", "fd00::1,::1", "2606:4700:4700::1111 , 8.8.8.8", "fe80::1, 2001:db8::/48",
+	"::ffff:10.0.0.7", "::ffff:a00:7", "::ffff:10.0.0.7/128", "::ffff:10.0.0.0/120", "10.0.0.7/32", "2001:db8::1/128", "2001:db8:0:1::5/128",
+	"::/0, 0.0.0.0/0", "::", "0.0.0.0", "255.255.255.255", "ffff:ffff:ffff:ffff:ffff:ffff:ffff:ffff", "2001:db8::1/0", "1.2.3.4/0",
+	// blanks that strings.TrimSpace removes (and three that it does not)
+	"\t10.0.0.7\t,\u00a02001:db8:0:1::5\u00a0", "10.0.0.7 \t, \u200310.0.0.8\u2028,\u3000192.168.0.0/16\u0085", "\v::1\f,\r127.0.0.1\n", "10.0.0.7,\u200b10.0.0.8", "\ufeff10.0.0.7", "10.0.0.7\u180e",
+}
+
+// configurations ParseAllowedIps refuses (and two it accepts that look as if it should not)
+var c16RefusedConfigs = []string{
+	"10.0.0.1/33", "2001:db8::/129", "10.0.0.1/", "/8", "10.0.0.1/8/8", "10.0.0.1, nonsense", "fe80::1%eth0", "10.0.0.1/08", "10.0.0.1/+8", "[::1]", "1.2.3.4:80",
 }
 
 // configurations a hub is created for (quick); thorough adds more
@@ -533,6 +647,7 @@ var c16HubConfigsMore = []string{"::/0", "10.1.2.3/8", "0.0.0.0/1", "fe80::/10",
 var c16AllowConfigs = []string{
 	"", "", "127.0.0.1, 192.168.0.1, 192.168.1.1/24", "0.0.0.0/0", "::/0", "8.8.8.8", "2001:db8::/32",
 	"10.0.0.0/8,::1", "203.0.113.0/24, 2001:db8:5::/48", "127.0.0.0/8", "::ffff:8.8.8.8",
+	"127.0.0.1, 2001:db8::100", "2001:db8:5::9", "fd00::1, 10.1.2.3", "::1", "2001:db8::100/128, 8.8.8.8/32", "::ffff:127.0.0.1",
 }
 
 var c16PublicV4 = []string{"8.8.8.8", "1.1.1.1", "203.0.113.7", "198.51.100.77", "198.51.100.130", "198.51.100.200", "100.64.0.1", "172.32.0.1", "172.15.255.255", "192.169.0.1", "11.0.0.1", "9.255.255.255", "126.255.255.255", "128.0.0.1", "1.2.3.4", "1.2.3.5", "6.6.6.6", "255.255.255.255", "0.0.0.0"}
@@ -546,15 +661,39 @@ var c16Junk = []string{"", "", "unknown", "_hidden", "garbage", "1.2.3.4.5", "30
 
 var c16Spaces = []string{" ", " ", " ", " ", "  ", "\t", " \t ", "\u00a0", "\u0085", "\u3000", "\u2003", "\u2028", "\u2029", "\u202f", "\u205f", "\u1680", "\u2000", "\u200a", "\v", "\f", "\u200b", "\ufeff", "\u180e", "\u00a0 ", " \u2003"}
 
+// The generators' own reading of a configuration text (which addresses are interesting
+// relative to it).  Deliberately NOT the server's ParseAllowedIps: the neighbours of an entry
+// must not move when the server reads the entry differently.
+func c16ConfigNets(cfg string) []*net.IPNet {
+	var nets []*net.IPNet
+	for _, e := range strings.Split(cfg, ",") {
+		e = strings.TrimSpace(e)
+		if e == "" {
+			continue
+		}
+		if strings.Contains(e, "/") {
+			if _, n, err := net.ParseCIDR(e); err == nil {
+				nets = append(nets, n)
+			}
+			continue
+		}
+		if ip := net.ParseIP(e); ip != nil {
+			if v4 := ip.To4(); v4 != nil {
+				nets = append(nets, &net.IPNet{IP: v4, Mask: net.CIDRMask(32, 32)})
+			} else {
+				nets = append(nets, &net.IPNet{IP: ip, Mask: net.CIDRMask(128, 128)})
+			}
+		}
+	}
+	return nets
+}
+
 func c16ParseConfig(cfg string) []*net.IPNet {
-	a, err := ParseAllowedIps(cfg)
-	if err != nil {
-		return nil
+	nets := c16ConfigNets(cfg)
+	if len(nets) == 0 {
+		return c16ConfigNets("127.0.0.0/8,10.0.0.0/8,172.16.0.0/12,192.168.0.0/16")
 	}
-	if a.Empty() {
-		return DefaultTrustedProxies.allowed
-	}
-	return a.allowed
+	return nets
 }
 
 func c16RandBytes(r *vrng, n int) []byte {
@@ -583,7 +722,9 @@ func c16AddrIn(r *vrng, n *net.IPNet) net.IP {
 	return ip
 }
 
-// an address that differs from the network in exactly the last prefix bit
+// an address that agrees with the network up to some bit of the prefix and differs there:
+// the last prefix bit (half of the time), or any bit of the prefix - in particular the bits
+// 8, 16, 24, 32, 64, 96 where a mask of another length would end
 func c16AddrJustOutside(r *vrng, n *net.IPNet) net.IP {
 	ip := c16AddrIn(r, n)
 	mask := n.Mask
@@ -595,11 +736,36 @@ func c16AddrJustOutside(r *vrng, n *net.IPNet) net.IP {
 		return net.ParseIP(pick(r, c16PublicV4))
 	}
 	bit := ones - 1
+	if r.chance(50) {
+		bit = r.intn(ones)
+		if b := pick(r, []int{8, 16, 24, 31, 32, 33, 48, 64, 96, 104, 120}); b < ones && r.chance(50) {
+			bit = b
+		}
+		// the bits below the differing one are free
+		rnd := c16RandBytes(r, len(ip))
+		for i := bit + 1; i < len(ip)*8; i++ {
+			if r.chance(50) {
+				ip[i/8] = (ip[i/8] &^ (0x80 >> (i % 8))) | (rnd[i/8] & (0x80 >> (i % 8)))
+			}
+		}
+	}
 	ip[bit/8] ^= 0x80 >> (bit % 8)
 	return ip
 }
 
 func c16RandNet(r *vrng) string {
+	if r.chance(35) {
+		// a single address, no prefix length
+		if r.chance(40) {
+			b := c16RandBytes(r, 4)
+			return c16TextOf(r, net.IP(b))
+		}
+		b := c16RandBytes(r, 16)
+		if r.chance(50) {
+			copy(b, []byte{0x20, 0x01, 0x0d, 0xb8})
+		}
+		return c16TextOf(r, net.IP(b))
+	}
 	if r.chance(60) {
 		b := c16RandBytes(r, 4)
 		return fmt.Sprintf("%d.%d.%d.%d/%d", b[0], b[1], b[2], b[3], pick(r, []int{0, 1, 7, 8, 9, 12, 15, 16, 17, 23, 24, 25, 30, 31, 32, r.intn(33)}))
@@ -836,16 +1002,42 @@ func c16GenCase(r *vrng, id int, hubConfigs []string, sink *caseSink) *c16Case {
 	nops := 1 + r.intn(4)
 	// one configuration per case, used by most of its ops
 	trustedCfg := pick(r, c16TrustedConfigs)
-	if r.chance(25) {
+	if r.chance(4) {
+		trustedCfg = pick(r, c16RefusedConfigs)
+		if r.chance(50) {
+			trustedCfg = pick(r, c16TrustedConfigs) + "," + trustedCfg
+		}
+	} else if r.chance(25) {
 		trustedCfg = c16RandNet(r)
 		if r.chance(40) {
 			trustedCfg += ", " + c16RandNet(r)
 		}
 	}
+	if r.chance(15) {
+		// blanks around the entries
+		parts := strings.Split(trustedCfg, ",")
+		for i := range parts {
+			if r.chance(60) {
+				parts[i] = pick(r, c16Spaces) + strings.TrimSpace(parts[i])
+			}
+			if r.chance(40) {
+				parts[i] += pick(r, c16Spaces)
+			}
+		}
+		trustedCfg = strings.Join(parts, ",")
+		sink.count("config_with_blanks")
+	}
+	// hub / stats ops: a start-up configuration, or (through the reload path) the case's own
 	hubCfg := pick(r, hubConfigs)
+	if r.chance(35) {
+		hubCfg = trustedCfg
+	}
 	allowCfg := pick(r, c16AllowConfigs)
 	if r.chance(20) {
 		allowCfg = c16RandNet(r)
+		if r.chance(30) {
+			allowCfg += "," + c16RandNet(r)
+		}
 	}
 	for i := 0; i < nops; i++ {
 		k := r.intn(100)
@@ -874,9 +1066,16 @@ func c16GenCase(r *vrng, id int, hubConfigs []string, sink *caseSink) *c16Case {
 			o.Trusted = &t
 			o.Allow = allowCfg
 			o.Endpoint = r.intn(3)
-		case k < 99:
+		case k < 96:
 			o.K = "allowed"
 			t := trustedCfg
+			if r.chance(25) {
+				t = allowCfg
+			}
+			o.Trusted = &t
+		case k < 99:
+			o.K = "parse"
+			t := pick(r, []string{trustedCfg, allowCfg, hubCfg})
 			o.Trusted = &t
 		default:
 			o.K = "defaults"
@@ -886,16 +1085,10 @@ func c16GenCase(r *vrng, id int, hubConfigs []string, sink *caseSink) *c16Case {
 			cfgT = *o.Trusted
 		}
 		w := &c16World{r: r, trusted: c16ParseConfig(cfgT), sink: sink, wire: o.K == "socket"}
-		if o.Trusted == nil {
-			w.trusted = DefaultTrustedProxies.allowed
-		}
 		if o.K == "stats" || o.K == "socket" {
-			a, err := ParseAllowedIps(o.Allow)
-			if err == nil && a.Empty() {
-				a = DefaultAllowedIps()
-			}
-			if a != nil {
-				w.allow = a.allowed
+			w.allow = c16ConfigNets(o.Allow)
+			if len(w.allow) == 0 {
+				w.allow = c16ConfigNets("127.0.0.1")
 			}
 		}
 		switch o.K {
@@ -967,6 +1160,33 @@ func c16Directed() []*c16Case {
 		{"2001:db8::1", "2001:db8::1"}, {"::ffff:0:0/96", "1.2.3.4"}, {"::ffff:0:0/90", "1.2.3.4"}} {
 		add(c16Op{K: "allowed", Trusted: s(p[0]), Ip: p[1]}, c16Op{K: "allowed", Trusted: s(p[0]), Ip: p[1], Ip16: true})
 	}
+	// single addresses in the lists: the address itself, and addresses that share its first 8 / 16 / 32 / 64 / 127 bits
+	for _, p := range [][2]string{{"2001:db8:0:1::5", "2001:db8:0:1::5"}, {"2001:db8:0:1::5", "2001:db8:0:1::4"}, {"2001:db8:0:1::5", "2001:db8:0:1:8000::5"},
+		{"2001:db8:0:1::5", "2001:db8:8000:1::5"}, {"2001:db8:0:1::5", "2001:db9:0:1::5"}, {"2001:db8:0:1::5", "2081:db8:0:1::5"},
+		{"10.0.0.7", "10.0.0.135"}, {"10.0.0.7", "10.0.128.7"}, {"10.0.0.7", "10.128.0.7"}, {"10.0.0.7", "::ffff:10.0.0.7"}, {"::ffff:10.0.0.7", "10.0.0.7"},
+		{"::ffff:10.0.0.7", "10.0.0.6"}, {"::ffff:10.0.0.7/128", "10.0.0.7"}, {"::ffff:10.0.0.7/128", "10.0.0.6"}, {"::ffff:10.0.0.0/120", "10.0.0.200"},
+		{"2001:db8::1/128", "2001:db8::1"}, {"2001:db8::1/128", "2001:db8::"}, {"10.0.0.7/32", "10.0.0.6"}, {"2001:db8::1/0", "::1"}, {"2001:db8::1/0", "1.2.3.4"},
+		{"1.2.3.4/0", "9.9.9.9"}, {"::", "::"}, {"::", "::1"}, {"0.0.0.0", "0.0.0.0"}, {"0.0.0.0", "::"}, {"::, 0.0.0.0", "0.0.0.1"}} {
+		add(c16Op{K: "allowed", Trusted: s(p[0]), Ip: p[1]}, c16Op{K: "allowed", Trusted: s(p[0]), Ip: p[1], Ip16: true})
+	}
+	// a direct client next to a single trusted IPv6 proxy / a single allowed IPv6 address
+	add(c16Op{K: "realip", Trusted: s("2001:db8:0:1::5"), Peer: "[2001:db8:0:1::5]:443", XR: l("9.9.9.9")},
+		c16Op{K: "realip", Trusted: s("2001:db8:0:1::5"), Peer: "[2001:db8:0:1::6]:443", XR: l("9.9.9.9"), XFF: l("9.9.9.9")},
+		c16Op{K: "realip", Trusted: s("2001:db8:0:1::5"), Peer: "[2001:db8:77::6]:443", XFF: l("127.0.0.1")},
+		c16Op{K: "hub", Trusted: s("fd00::1,::1"), Peer: "[fd00::2]:80", XR: l("127.0.0.1")},
+		c16Op{K: "hub", Trusted: s("fd00::1,::1"), Peer: "[fd00:0:1::1]:80", XFF: l("127.0.0.1")},
+		c16Op{K: "hub", Trusted: s("fd00::1,::1"), Peer: "[fd00::1]:80", XFF: l("127.0.0.1")})
+	for ep := 0; ep < 3; ep++ {
+		add(c16Op{K: "stats", Trusted: s("fd00::1,::1"), Allow: "127.0.0.1, 2001:db8::100", Endpoint: ep, Peer: "[2001:db8::100]:1234"},
+			c16Op{K: "stats", Trusted: s("fd00::1,::1"), Allow: "127.0.0.1, 2001:db8::100", Endpoint: ep, Peer: "[2001:db8::101]:1234"},
+			c16Op{K: "stats", Trusted: s("fd00::1,::1"), Allow: "127.0.0.1, 2001:db8::100", Endpoint: ep, Peer: "[2001:db8:ffff::100]:1234", XR: l("127.0.0.1")},
+			c16Op{K: "stats", Trusted: s("fd00::1,::1"), Allow: "127.0.0.1, 2001:db8::100", Endpoint: ep, Peer: "[fd00::1]:1234", XR: l("2001:db8::100")},
+			c16Op{K: "stats", Trusted: s("fd00::1,::1"), Allow: "127.0.0.1, 2001:db8::100", Endpoint: ep, Peer: "[fd00::1]:1234", XR: l("2001:db8::99")})
+	}
+	// every fixed configuration text: refused, or the list it means
+	for _, cfg := range append(append([]string{}, c16TrustedConfigs...), c16RefusedConfigs...) {
+		add(c16Op{K: "parse", Trusted: s(cfg)})
+	}
 	return cs
 }
 
@@ -978,7 +1198,7 @@ func TestVerifC16(t *testing.T) {
 
 	sink := newCaseSink(t, env, "C16", "corr.Run_C16", 80)
 	sink.preamble = "Open Scope string_scope.\nOpen Scope N_scope.\nDefinition n4 (a l : N) : net := (V4 a, l).\nDefinition n6 (a l : N) : net := (V6 a, l).\n"
-	e := &c16Env{t: t, servers: map[string]*c16Server{}}
+	e := &c16Env{t: t, servers: map[string]*c16Server{}, startup: map[string]bool{}}
 
 	if ip := net.ParseIP(""); ip != nil {
 		t.Fatal("net.ParseIP(\"\") is not nil")
@@ -992,6 +1212,9 @@ func TestVerifC16(t *testing.T) {
 	if env.thorough() {
 		n = 24000
 		hubConfigs = append(append([]string{}, c16HubConfigs...), c16HubConfigsMore...)
+	}
+	for _, cfg := range hubConfigs {
+		e.startup[cfg] = true
 	}
 	var cases []*c16Case
 	if env.replay != "" {
@@ -1014,10 +1237,11 @@ func TestVerifC16(t *testing.T) {
 		trace, outs, tb, nontrivial := c16Run(e, c, sink)
 		c.Outs = outs
 		ptbl, stbl := tb.coq()
-		term := fmt.Sprintf("mkcase %d %s %s %s", c.Id, ptbl, stbl, coqList(trace))
+		term := fmt.Sprintf("mkcase_cfg %d %s %s %s %s", c.Id, ptbl, stbl, tb.coqCidr(), coqList(trace))
 		sink.count(fmt.Sprintf("ops_per_case_%d", len(trace)))
 		sink.add(term, c, nontrivial, term)
 	}
 	sink.stats.Histogram["servers_created"] = len(e.servers)
-	sink.close("seeded requests (peer, X-Real-IP lines, X-Forwarded-For lines, trusted-proxy and allow-list configuration) on the real GetRealUserIP, Hub.getRealUserIP, AllowedIps.Allowed and the stats / serverinfo / metrics handlers of a BackendServer; non-trivial = headers present (trusted peer: header logic decides; untrusted peer: forged headers must be ignored) or an address inside a configured network; distinct = distinct (inputs, outputs)")
+	sink.stats.Histogram["trusted_proxies_reloaded"] = e.reloads
+	sink.close("seeded requests (peer, X-Real-IP lines, X-Forwarded-For lines, trusted-proxy and allow-list configuration given as text and parsed by the model) on the real ParseAllowedIps, GetRealUserIP, Hub.getRealUserIP, AllowedIps.Allowed and the stats / serverinfo / metrics handlers of a BackendServer; non-trivial = headers present (trusted peer: header logic decides; untrusted peer: forged headers must be ignored) or an address inside a configured network; distinct = distinct (inputs, outputs)")
 }
